@@ -186,6 +186,7 @@ def run(ctx):
     ctx.attempt(rule9_union, ctx)
     ctx.attempt(rule10_halfopen, ctx)
     ctx.attempt(rule12_dump_layout, ctx, w)
+    ctx.attempt(rule13_stream_and_clock, ctx, w)
     # "shrinking a DAG during conversion preserves its totals": the per-kind edge totals of a contracted node and of the subgraph it
     # replaces agree, and the reader sums both (decided in full as C18.4)
     from . import c18
@@ -475,6 +476,52 @@ def rule12_dump_layout(ctx, w):
                okst and len(rootpush) == 1 and bool(pp) and all(fn_.dominates_f(rootpush[0], c) for c in pp),
                'init(s); push(s, g); while (s->top) pop', loc=fn_.loc)
     ctx.floor('C19.12', 22)
+
+
+def rule13_stream_and_clock(ctx, w):
+    ctx.doc('C19.13', 'dr_gen_pi_dag: the stream the DAG file is written through is closed on every path that opened it (the last '
+            'partial block of a dump reaches the file only at fclose: a dump read back by the process that wrote it, or a second dump to '
+            'the same name, otherwise sees a truncated / overwritten file); chronological replay: event times are compared at their full '
+            '64-bit width')
+    f = ctx.need_fn(w, 'dr_gen_pi_dag')
+    opens = call_sites(f, ('fopen', 'dr_pi_dag_open_to_write'))
+    closes = call_sites(f, 'fclose')
+    ctx.ob('C19.13', 'dr_gen_pi_dag: opens one stream', len(opens) == 1, 'fopen(filename, "wb")', loc=f.loc)
+    for o in opens:
+        rets = [r for r in f.order if r.op == 'ret']
+        mine = [c for c in closes if f.sources(c.args[0]) == f.sources(o.id) or same_value(f, c.args[0], o.id)]
+        leaks = []
+        for br, nn, nl in lib.null_tests(f, o.id):
+            if nn == nl:
+                continue
+            reach = f.reachable_from(lib.first_inst(f, nn), blocked=mine, include_start=True)
+            leaks += [r for r in rets if r in reach]
+        ctx.ob('C19.13', 'dr_gen_pi_dag: the stream is closed on every path from a successful open', bool(mine) and
+               bool(lib.null_tests(f, o.id)) and not leaks, 'fopen ... fclose on every path to return', loc=o.loc)
+    ch = ctx.ssa('chronological.c', area='profiler')
+    from ..ir import iter_refs
+    bad, ncmp = [], 0
+    for fn in ch.functions.values():
+        def from_t(ref, seen, depth=0):
+            ins = fn.get(ref) if isinstance(ref, str) else None
+            if ins is None or ins.id in seen or depth > 12:
+                return False
+            seen.add(ins.id)
+            if ins.op == 'load':
+                return fn.field(ins) == 'dr_event.t'
+            if ins.op in ('call', 'phi', 'alloca'):
+                return False
+            return any(from_t(r, seen, depth + 1) for r in iter_refs(ins.d))
+        for ins in fn.order:
+            if ins.op == 'icmp' and any(from_t(o, set()) for o in ins.ops if isinstance(o, str)):
+                ncmp += 1
+            if ins.op == 'trunc' and from_t(ins.ops[0], set()):
+                bad.append((fn.name, ins))
+    ctx.ob('C19.13', 'replay: event times are never narrowed before they are compared', not bad and ncmp >= 4,
+           'the heap orders events by evts[x].t <=> evts[p].t on the 64-bit clock values; a difference cut to int orders two events that '
+           'are 2^31 ticks apart the wrong way round', loc=(bad[0][1].loc if bad else 'src/profiler/chronological.c'),
+           detail='; '.join('%s narrows a time at line %s' % (n_, i_.line) for n_, i_ in bad[:3]) or '%d comparisons of event times' % ncmp)
+    ctx.floor('C19.13', 3)
 
 
 def rule10_halfopen(ctx):
@@ -1310,6 +1357,10 @@ def rule5_growth(ctx):
 DUMP = 'src/profiler/dr_dump.c'
 READ = 'src/profiler/read_dag.c'
 MUTANTS = [
+    {'name': 'dump stream not closed on the success path (seed4 C19/m2)', 'expect': 'C19.13',
+     'edits': [('src/profiler/dr_dump.c', "    dr_free(filename, len);\n    fclose(wp);\n  } else {", "    dr_free(filename, len);\n  } else {")]},
+    {'name': 'event heap compares times through an int difference (seed4 C19/m3)', 'expect': 'C19.13',
+     'edits': [('src/profiler/chronological.c', "    if (evts[x].t >= evts[p].t) break;", "    if ((int)(evts[x].t - evts[p].t) >= 0) break;")]},
     {'name': 'shrinking copy keeps the child of a create_task whose node is dropped (seed4 C18/m3)', 'expect': 'C19.3',
      'edits': [('src/profiler/dr_dump.c', "    int copy_children = 0;\n    (void)dr_check(map[i] != map_init);", "    int copy_children = (t->info.kind == dr_dag_node_kind_create_task);\n    (void)dr_check(map[i] != map_init);")]},
     {'name': 'dump: child offset taken after the cursor moved', 'expect': 'C19.12',
